@@ -89,6 +89,35 @@ func (g *wsG) peerData() {
 	}
 }
 
+// a whole fragmented message (2-4 fragments, control frames possibly interleaved), optionally broken by a new data frame
+func (g *wsG) peerBurst() {
+	if g.frag {
+		g.peerData()
+		return
+	}
+	k := 2 + g.r.intn(3)
+	budget := g.max
+	for i := 0; i < k; i++ {
+		n := g.r.intn(minInt(budget, 5) + 1)
+		budget -= n
+		op := 0
+		if i == 0 {
+			op = 1 + g.r.intn(2)
+		}
+		if i > 0 && g.r.intn(8) == 0 {
+			op = 1 + g.r.intn(2) // new data frame inside the message
+		}
+		g.peer(i == k-1, 0, op, false, g.r.bytes(n))
+		if i < k-1 && g.r.intn(4) == 0 {
+			if g.r.intn(2) == 0 {
+				g.peerPing()
+			} else {
+				g.peerPong()
+			}
+		}
+	}
+}
+
 func (g *wsG) peerPing() { g.peer(true, 0, 9, false, g.r.bytes(g.clen())) }
 func (g *wsG) peerPong() { g.peer(true, 0, 10, false, g.r.bytes(g.clen())) }
 
@@ -225,7 +254,12 @@ func (g *wsG) localCall() {
 }
 
 func (g *wsG) peerEvent() {
-	switch x := g.r.intn(60); {
+	switch x := g.r.intn(66); {
+	case x >= 60:
+		g.peerBurst()
+		if g.r.intn(3) != 0 {
+			g.emit("nextmsg %s %d", g.sa(), g.bufSize())
+		}
 	case x < 22:
 		g.peerData()
 	case x < 32:
@@ -320,7 +354,9 @@ func wsGen(r *rng, maxops int, w *bufio.Writer) {
 }
 
 func (g *wsG) conforming() {
-	switch x := g.r.intn(10); {
+	switch x := g.r.intn(12); {
+	case x >= 10:
+		g.peerBurst()
 	case x < 6:
 		g.peerData()
 	case x < 8:
